@@ -313,6 +313,17 @@ func raiseConversion(opts *options, v value, err error, to string) Error {
 	return raisePathErr(err, v.meta(), message, path)
 }
 
+// raiseNoObject reports that v can not be used as an object, err being the
+// error of v.toConfig. If v could not be evaluated at all that is the error:
+// asking for the type of v would evaluate v once more, only to fail again (at
+// every level of a chain of references).
+func raiseNoObject(opts *options, v value, err error) Error {
+	if err != ErrTypeMismatch {
+		return reifyErrAt(v, err).(Error)
+	}
+	return raiseExpectedObject(opts, v)
+}
+
 func raiseExpectedObject(opts *options, v value) Error {
 	ctx := v.Context()
 	path := ctx.path(".")
